@@ -31,6 +31,13 @@ var parserFaultKinds = []string{"preemptions", "stall_steps", "park_on_full_chan
 // remaining tasks after main has ended, so a scanner left parked shows up as a
 // deadlock at the end of the run.
 func simParse(ctx *Ctx, src string, strategy int) *parseOutcome {
+	return simParseAfter(ctx, nil, src, strategy)
+}
+
+// simParseAfter first parses the texts in before (whatever they do) and then src,
+// all on ONE parser instance: a sentence must be accepted whatever that parser
+// instance was fed earlier, failed parses included.
+func simParseAfter(ctx *Ctx, before []string, src string, strategy int) *parseOutcome {
 	out := &parseOutcome{}
 	res := ctx.Sim(func(c *simrt.Config) {
 		c.Strategy = strategy
@@ -50,8 +57,20 @@ func simParse(ctx *Ctx, src string, strategy int) *parseOutcome {
 				out.Stack = string(buf[:runtime.Stack(buf, false)])
 			}
 		}()
-		notation := cdcn.Notation().Make()
-		out.Value = notation.ParseSource(src)
+		if before == nil {
+			notation := cdcn.Notation().Make()
+			out.Value = notation.ParseSource(src)
+			out.Returned = true
+			return
+		}
+		parser := cdcn.Parser().Make()
+		for _, b := range before {
+			func() {
+				defer func() { recover() }()
+				parser.ParseSource(b)
+			}()
+		}
+		out.Value = parser.ParseSource(src)
 		out.Returned = true
 	})
 	out.Res = res
@@ -146,8 +165,15 @@ func runC11Sentence(ctx *Ctx, class string, s sentence, k int) {
 	}
 	var first *node
 	for i := 0; i < k; i++ {
-		out := simParse(ctx, s.Text, c11Strategies[i%len(c11Strategies)])
+		var out *parseOutcome
 		sig := sentenceSig(s)
+		if reuse := reuseFor(s, i); reuse != nil {
+			out = simParseAfter(ctx, reuse, s.Text, c11Strategies[i%len(c11Strategies)])
+			sig += ":reused-parser"
+			ctx.Probe("sentence_on_reused_parser_instance")
+		} else {
+			out = simParse(ctx, s.Text, c11Strategies[i%len(c11Strategies)])
+		}
 		for _, r := range out.Res.Races {
 			ctx.Violate("C11", "race", r.Sig, fmt.Sprintf("scanner/parser %s race on %s: %s vs %s while parsing %q", r.Kind, r.Var, r.SiteA, r.SiteB, s.Text))
 		}
@@ -180,6 +206,26 @@ func runC11Sentence(ctx *Ctx, class string, s sentence, k int) {
 			ctx.Violate("C11", "schedule-dependent-result", sig, fmt.Sprintf("sentence %q parsed to %s under one schedule and %s under another", s.Text, first, got))
 		}
 	}
+}
+
+var reuseHistories = [][]string{
+	{"[1 2](List)"},                     // syntax error: the offending token was pushed back
+	{"[#](List)"},                       // lexical error
+	{"[1, 2](Catalog)"},                 // kind mismatch
+	{"[99999999999999999999](List)"},    // unrepresentable literal
+	{"[\n    1\n    2 3\n](Set)\n"},     // error deep in a multi-line sequence
+	{"[1, 2, 3](List)"},                 // a successful parse
+	{"[1 2](List)", "[", "[1](List) 1"}, // several failures in a row
+	{"[1, 2](List)]]]]"},                // trailing garbage after a complete collection
+}
+
+// reuseFor decides whether schedule i of a sentence runs on a parser instance
+// with a history (every third schedule, history chosen by the sentence text).
+func reuseFor(s sentence, i int) []string {
+	if i%3 != 2 {
+		return nil
+	}
+	return reuseHistories[int(hashString(s.Text)%uint64(len(reuseHistories)))]
 }
 
 // sentenceSig is a coarse, schedule-independent description of what kind of
